@@ -800,6 +800,8 @@ func c06(seed int64, thorough bool) {
 	}
 	// valid frames on connections whose Write fails: still exactly one Write of the frame's 16 bytes
 	emitTransmitFaults(rng, validFrame, thorough)
+	// the transmit side of the connection glue against its model (Glue.v; glue.go)
+	c06glue(rand.New(rand.NewSource(seed+14)), thorough)
 }
 
 func validFrame(rng *rand.Rand) can.Frame {
@@ -1141,6 +1143,8 @@ func c07(seed int64, thorough bool) {
 	emitTransmitFaults(rng, randFrame, thorough)
 	// 13. histories of calls by several Transmitters on one conn with repeated contexts
 	c07histories(rng, thorough)
+	// 14. the connection glue against its own model (Glue.v): fileConn, udpTxRx, dialCtx (glue.go)
+	c07glue(rand.New(rand.NewSource(seed+14)), thorough)
 	// 12. packet connections: one datagram per Read, what does not fit the offered buffer is discarded
 	c07packets(rng, thorough)
 	// 11. a Transmitter and a Receiver on one shared connection of every kind Dial returns
